@@ -499,6 +499,12 @@ class Gen(object):
             out = [Assign(V(r.choice(rv)), e) if rv and r.random() < 0.4 else assign_new('real', 'rv', e)]
             if r.random() < 0.5:
                 out.append(assign_new('bool', 'rb', Bin(r.choice(['<', '>=', '==']), V(r.choice(self.vars_of('real'))), R())))
+            iv = self.vars_of('int')
+            if iv and r.random() < 0.5:
+                # a real value assigned to a variable that was first assigned an integer: the variable stays what it was
+                x = r.choice(iv)
+                out += [Assign(V(x), R() if r.random() < 0.6 else V(r.choice(self.vars_of('real')))),
+                        assign_new('int', 'rk', V(x) if r.random() < 0.5 else Bin('*', V(x), I(2)))]
             return out
         if k == 'create_nv':
             return {'t': 'create_nv', 'k': r.choice(['A', 'B', 'P'])}
